@@ -259,7 +259,13 @@ def check_metrics(rep, tier, seed):
     if ok_out != ["cfg ok", "watchend ok"]:
         core.handle_diff(rep, "C20", "metrics-watchend", _case(ok_lines, ok_out, ["cfg ok", "watchend ok"]))
         return True
-    for key in ["ff2f61", "2f72c328", "80"]:
+    long_keys = []
+    for cut in (32, 64, 128, 255, 256):
+        for rune in ("\u00e9", "\u4e16", "\U0001f600"):          # 2-, 3- and 4-byte runes straddling the offset
+            for back in range(1, len(rune.encode()) ):
+                pre = b"/r" + b"n" * (cut - back - 2)
+                long_keys.append((pre + rune.encode() + b"/pods/").hex())
+    for key in ["ff2f61", "2f72c328", "80"] + long_keys[::3] + [(b"/r" + b"\xff" * 70).hex()]:
         bad_lines = ["cfg", "watchend " + key]
         bad_out = core.run_impl("metrics", bad_lines, timeout=60)
         c2 = _case(bad_lines, bad_out, ["cfg ok", "watchend ok"])
